@@ -14,10 +14,16 @@ import time
 
 VERIF = os.path.dirname(os.path.dirname(os.path.abspath(__file__)))
 REPO = os.environ.get("VERIF_REPO", "/repo")
-BUILD = os.path.join(VERIF, ".build")
+# A scratch copy of the repository (mutant / seeded-change testing) is checked with
+#   VERIF_REPO=/tmp/wt VERIF_BUILD=/tmp/wt-build ./check Cxx quick
+# which keeps its build output, evidence and replay files away from the real ones.
+ALT = REPO != "/repo"
+BUILD = os.environ.get("VERIF_BUILD") or os.path.join(VERIF, ".build")
+if ALT and not os.environ.get("VERIF_BUILD"):
+    BUILD = os.path.join(VERIF, ".build", "alt-" + hashlib.sha1(REPO.encode()).hexdigest()[:8])
 SPEC = os.path.join(VERIF, "spec")
-EVID = os.path.join(VERIF, "evidence")
-REPLAYS = os.path.join(VERIF, "replays")
+EVID = os.path.join(BUILD, "evidence") if ALT else os.path.join(VERIF, "evidence")
+REPLAYS = os.path.join(BUILD, "replays") if ALT else os.path.join(VERIF, "replays")
 NCPU = os.cpu_count() or 4
 
 
@@ -63,9 +69,26 @@ def _cargo_env():
     return env
 
 
+def _write_if_changed(path, text):
+    if not os.path.exists(path) or open(path).read() != text:
+        with open(path, "w") as f:
+            f.write(text)
+
+
 def ensure_harness():
     """Build the harness against /repo's working tree (incremental)."""
     hdir = os.path.join(VERIF, "harness")
+    if ALT:
+        # private copy of the harness crate pointing at the scratch repository
+        src = hdir
+        hdir = os.path.join(BUILD, "harness-src")
+        os.makedirs(os.path.join(hdir, ".cargo"), exist_ok=True)
+        shutil.rmtree(os.path.join(hdir, "src"), ignore_errors=True)
+        shutil.copytree(os.path.join(src, "src"), os.path.join(hdir, "src"))
+        toml = open(os.path.join(src, "Cargo.toml")).read().replace('path = "/repo"', 'path = "%s"' % REPO)
+        _write_if_changed(os.path.join(hdir, "Cargo.toml"), toml)
+        _write_if_changed(os.path.join(hdir, ".cargo", "config.toml"),
+                          '[net]\noffline = true\n\n[build]\ntarget-dir = "%s"\n' % os.path.join(BUILD, "harness"))
     with _Lock("cargo.lock"):
         lock_src = os.path.join(REPO, "Cargo.lock")
         lock_dst = os.path.join(hdir, "Cargo.lock")
